@@ -73,6 +73,15 @@ def fprintOp (op : String) (j : Json) : Except String Json := do
     return okJ (Json.arr #[Json.num ((r.1 : Nat) : Int), natsToJson r.2])
   | "fp.from_rdkit" =>
     return exJ fpToJson (fromRdkit (← jKind (← jField j "kind")) (← jNat (← jField j "nbits")) (← jList jNat (← jField j "on")))
+  | "fp.rt_dense" =>
+    let f ← jFp (← jField j "fp")
+    return exJ fpToJson (fromDense f.kind f.toDense f.level)
+  | "fp.rt_bitstring" =>
+    let f ← jFp (← jField j "fp")
+    return exJ fpToJson (fromBitstring f.kind f.toBitstring f.level)
+  | "fp.rt_rdkit" =>
+    let f ← jFp (← jField j "fp")
+    return exJ fpToJson (fromRdkit f.kind f.toRdkit.1 f.toRdkit.2)
   | "fp.pickle" => return okJ (fpToJson ((← jFp (← jField j "fp")).pickleRoundTrip))
   | _ => .error s!"unknown op {op}"
 
